@@ -397,7 +397,7 @@ theorem exists_empty_step (hc : CfgOk cfg) (hpc : ProbeCovers cfg) (h : Inv cfg 
   · rw [hv, hji, he0]
   · exact hv
 
-theorem tagFull_lt (bits hash : Nat) : tagFull bits hash < 128 := by
+theorem tagFull_lt_128 (bits hash : Nat) : tagFull bits hash < 128 := by
   unfold tagFull; exact Nat.mod_lt _ (by decide)
 
 /-- Core form of A3 (all the information the loop invariant carries). -/
@@ -457,7 +457,7 @@ theorem find_run (hc : CfgOk cfg) (hpc : ProbeCovers cfg) (env : Env) (hash q : 
     (∃ w', find cfg env hash q w = .panic "eq" w' ∧ EcOnly w w' ∧ ∃ e c, env.eq c q e = none) := by
   have hsim := findLoop_of_fofis cfg env q (tagFull cfg.bits hash) (probeFuel w.t)
     (probeSeq cfg.bits w.t.mask hash) none w
-  rcases fofis_run hc hpc env hash q _ (tagFull_lt cfg.bits hash) w h with
+  rcases fofis_run hc hpc env hash q _ (tagFull_lt_128 cfg.bits hash) w h with
     ⟨idx, w', k1, k2, k3⟩ | ⟨slot, w', k1, k2, _, k4⟩ | ⟨w', k1, k2, k3⟩
   · exact .inl ⟨idx, w', hsim.1 idx w' k1, k2, k3⟩
   · exact .inr (.inl ⟨w', hsim.2.1 slot w' k1, k2, k4⟩)
@@ -565,7 +565,7 @@ theorem fofis_spec (hc : CfgOk cfg) (hp : ProbeCovers cfg) (env : Env) (H : Nat 
       (∀ idx, r = .ok idx ↔ ∃ e, w1.t.slots[idx]?.join = some e ∧ e.k = q) ∧
       (∀ slot, r = .error slot ↔ (findInsertSlot cfg w1.t (H q) = .ok slot ∧
         ∀ (i : Nat) (e : Elem), w1.t.slots[i]?.join = some e → e.k ≠ q)) := by
-  rcases fofis_run hc hp env (H q) q _ (tagFull_lt cfg.bits (H q)) w1 h.toInv with
+  rcases fofis_run hc hp env (H q) q _ (tagFull_lt_128 cfg.bits (H q)) w1 h.toInv with
     ⟨idx, w', k1, k2, _, _, e, c, k5, k6⟩ | ⟨slot, w', k1, k2, k3, s', k4, k5⟩ | ⟨w', _, _, e, c, k3⟩
   · have hk := hl.eq_true k6
     refine ⟨.ok idx, w', k1, k2.t, k2.log, k2.hc, fun idx' => ⟨?_, ?_⟩, fun slot => ⟨?_, ?_⟩⟩
